@@ -431,6 +431,11 @@ class Engine:
         self.top_env = None
         self.extra_probes = {}
         self.in_spec = 0
+        self.ext_unknown = False
+        self.in_preserve = False
+        self.scope_id = 0
+        self.scope_ctr = 0
+        self.assumed_defined = 0
         self.quick_ms = 400
         self.defer_sat = True     # models are produced by the external pass (smaller, bounded sizes)
 
@@ -516,6 +521,8 @@ class Engine:
         goal = zb(goal)
         t0 = time.time()
         status, backend, model = self._prove(goal)
+        if self.ext_unknown:
+            tags = tuple(tags) + ("ext_unknown",)
         ob = Ob(name, status, backend, round(time.time() - t0, 4), cls, tuple(tags), model=model, detail=detail,
                 path=self.path_id, func=self.top_qual())
         if status != "discharged":
@@ -602,6 +609,11 @@ class Engine:
         if z3.is_true(t):
             return
         cls = self.cur_contract.definedness if self.cur_contract else "D"
+        if cls == "assume":
+            # this contract does not decide arithmetic definedness (stated in its evidence): assumed, not checked
+            self.assumed_defined += 1
+            self.assume(t)
+            return
         if self.in_spec:
             cls, msg = "S", "spec " + msg
         if self.must(t):
@@ -645,12 +657,16 @@ class Engine:
         """evaluate thunk() with `hyp` temporarily assumed (definedness obligations raised inside see it)"""
         self.solver.push()
         n0 = len(self.path_assumptions)
+        outer = self.scope_id
+        self.scope_ctr += 1
+        self.scope_id = self.scope_ctr
         try:
             self.assume(hyp)
             return thunk()
         finally:
             self.solver.pop()
             del self.path_assumptions[n0:]
+            self.scope_id = outer
 
     def forall(self, n, fn, lo=0, name="q"):
         k = z3.Int(self.uniq(name))
@@ -803,6 +819,7 @@ class Engine:
         self.recorders = {}
         self.top_env = None
         self.extra_probes = {}
+        self.ext_unknown = False
         for ax in self.axioms:
             self.solver.add(ax)
         try:
@@ -949,8 +966,8 @@ class Engine:
             for pat, fn in self.cur_contract.hints:
                 if src.startswith(pat):
                     self.hint_hits.add(pat)
-                    for item in fn(LoopState(self, env)):
-                        self.oblige("hint.%s" % item[0], item[1], cls="S")
+                    for item in self.spec_eval(lambda: fn(LoopState(self, env))):
+                        self.oblige("hint.%s" % item[0], item[1], cls=(item[2] if len(item) > 2 else "S"))
         return r
 
     def x_Pass(self, st, env):
@@ -1194,7 +1211,10 @@ class Engine:
             except _Break:
                 raise Unsupported("break inside a loop under contract")
             s2 = LoopState(self, env, k=k + 1, n=n_eff, seq=seq, entry=entry)
-            for item in self.spec_eval(lambda: lc.inv(s2)):
+            self.in_preserve = True
+            items2 = self.spec_eval(lambda: lc.inv(s2))
+            self.in_preserve = False
+            for item in items2:
                 self.oblige("%s.preserve.%s" % (tag, item[0]), item[1], cls=(item[2] if len(item) > 2 else lc.cls))
             raise PathEnd()
         else:
